@@ -398,6 +398,97 @@ def run(ctx):
         ctx.ob('C20.6', g, 'cut-on-char-boundary:' + s_.name, guarded, '%s %s' % (s_.name, 'with the offset derived / tested in the same function' if guarded else
                'with an UNCHECKED byte offset: a multi-byte character straddling it panics the surface'), line=s_.line)
 
+    # ---------------------------------------------------------------- C20.8
+    ctx.rule('C20.8', 'text the fold accumulates is cut back where it is appended: every String growth (push_str / push / insert_str / extend / +=) '
+             'in the state side of rip_tui whose receiver outlives the call (a field of the state, a &mut String parameter, a slot handed out by a map — '
+             'anything but a String local of the same function) is followed, on every path to the return, by a test of the length of that same string '
+             '(the cap test whose over-edge trims it), in the same function or — for a helper that appends to its parameter — after every call of the helper. '
+             'A stash filled with a bare push_str is bounded by nothing but the frames that arrive.')
+    STR_GROW = r'^alloc::string::String::(push_str|push|insert_str|insert|extend_from_within)$|^<alloc::string::String as core::iter::Extend<.*>>::extend|^<alloc::string::String as core::ops::AddAssign<.*>>::add_assign$|^<alloc::string::String as core::fmt::Write>::write_(str|fmt|char)$'
+    STR_LEN = r'^alloc::string::String::len$|^core::str::<impl str>::len$'
+    THROUGH = (r'::deref_mut$', r'::deref$', r'::as_mut$', r'::as_mut_str$', r'::as_str$', r'::borrow_mut$')
+
+    def okey(g, op):
+        o = g.origin(op, through_calls=THROUGH)
+        if o[0] == 'local':
+            return ('local', o[1], tuple(pp.get('n') if isinstance(pp, dict) else pp for pp in o[2] if pp != '*'))
+        if o[0] == 'call':
+            return ('call', o[1].bb, tuple(pp.get('n') if isinstance(pp, dict) else pp for pp in (o[2] if len(o) > 2 else []) if pp != '*'))
+        return (o[0],)
+
+    def transient(g, key):
+        # a String the function owns: a non-parameter local of type String with no projection
+        return key[0] == 'local' and key[1] > g.argc and not key[2] and re.match(r'^alloc::string::String$', g.lty(key[1]) or '') is not None
+
+    def len_tested_after(g, bb, key):
+        lens = [l_.bb for l_ in g.sites() if re.search(STR_LEN, l_.callee) and l_.args and okey(g, l_.args[0]) == key]
+        rets = g.returns()
+        return bool(lens) and (not rets or g.must_pass(lens, bb, rets))
+
+    n8 = 0
+    state_fns = crate_fns_all(P)
+    for g in state_fns:
+        for s_ in g.sites():
+            if not re.search(STR_GROW, s_.callee) or not s_.args:
+                continue
+            key = okey(g, s_.args[0])
+            if transient(g, key):
+                continue
+            n8 += 1
+            ok8 = len_tested_after(g, s_.bb, key)
+            how = 'followed by a length test of the same string on every path to the return'
+            if not ok8 and key[0] == 'local' and 1 <= key[1] <= g.argc and '{closure' not in g.path:
+                # a helper appending to its parameter: the cap test may sit after each call of the helper
+                cs = [c_ for c_ in P.callers('^' + re.escape(g.path) + '$') if c_.fn.crate == 'rip_tui']
+                if cs and all(len(c_.args) >= key[1] and len_tested_after(c_.fn, c_.bb, okey(c_.fn, c_.args[key[1] - 1])) for c_ in cs):
+                    ok8 = True
+                    how = 'capped after each of the %d call(s) of this helper' % len(cs)
+            ctx.ob('C20.8', g, 'accumulated-text-is-capped:' + s_.name, ok8,
+                   ('%s onto %s — %s' % (s_.name, 'a string that outlives the call', how)) if ok8 else
+                   '%s onto a string that outlives the call, and NO length test of that string follows on every path to the return: it grows by every frame that reaches this arm (the preview / output caps are enforced only where they are tested)' % s_.name,
+                   line=s_.line)
+    ctx.floor('C20.8', 'persistent String growth sites in the state side of rip_tui', n8, 2)
+
+    # ---------------------------------------------------------------- C20.9
+    ctx.rule('C20.9', 'what a surface shows is a function of the frames folded into the state it is handed: nothing in rip_tui touches ambient mutable state — '
+             'no operand names a `static mut` or a static whose type has interior mutability (Lazy / OnceLock / Mutex / atomics / RefCell), no #[thread_local] '
+             'static, and no call goes through std::thread::LocalKey (thread_local!). A memo keyed by anything a frame supplies (ids are arbitrary and may repeat) '
+             'answers from an earlier stream. The matcher must find its positive examples (the Lazy schema statics of rip_openresponses) on every run.')
+
+    def ambient(g):
+        out = []
+
+        def walk(o, line):
+            if isinstance(o, dict):
+                if o.get('k') == 'tls' and 'static' in o:
+                    out.append(('#[thread_local] ' + o['static'], line))
+                if 'static' in o and o.get('static_frozen') is False:
+                    out.append((o['static'] + ' : ' + (o.get('static_ty') or '?').split('<')[0], line))
+                for v in o.values():
+                    walk(v, line)
+            elif isinstance(o, list):
+                for v in o:
+                    walk(v, line)
+        for bi in g.reachable():
+            b = g.blocks[bi]
+            for st in b['s']:
+                walk(st, st.get('ln', 0))
+            walk(b['t'], b['t'].get('ln', 0))
+        for s_ in g.sites():
+            if re.search(r'^std::thread::LocalKey::<T>::|^std::thread::local::LocalKey::<T>::', s_.callee):
+                out.append((s_.callee, s_.line))
+        return out
+    pos = sum(len(ambient(g)) for g in P.fns.values() if g.crate == 'rip_openresponses')
+    ctx.floor('C20.9', 'positive examples of the ambient-state matcher (interior-mutable statics named in rip_openresponses)', pos, 16)
+    tui_fns = [g for g in P.fns.values() if g.crate == 'rip_tui']
+    hits9 = [(g, a) for g in tui_fns for a in ambient(g)]
+    ctx.ob('C20.9', 'rip_tui', 'no-ambient-state', not hits9,
+           ('none of the %d functions of rip_tui names an interior-mutable static or a thread-local (%d positive examples matched elsewhere)' % (len(tui_fns), pos)) if not hits9 else
+           '%s touches %s: the rendering / fold result depends on what this thread or process did before, not on the frames alone' % (hits9[0][0].path, hits9[0][1][0]),
+           line=hits9[0][1][1] if hits9 else 0)
+    for g, a in hits9[1:6]:
+        ctx.ob('C20.9', g, 'no-ambient-state:' + a[0].split(' ')[0].rsplit('::', 1)[-1], False, '%s touches %s' % (g.path, a[0]), line=a[1])
+
 
 def same(f, a, b):
     oa, ob = f.origin(a), f.origin(b)
